@@ -69,6 +69,21 @@ NEEDS = {
  "w4-C15-B": ("C15", "Engine.Analyze treats an explicit depth limit 0 like 'not set'", "engine with a non-zero default depth + request DepthLimit=Some(0)"),
  "w4-C16-A": ("C16", "ensureInactive halts before clearing the active flag", "a running finite search superseded without stop, the forwarder's CAS landing before the flag is cleared"),
  "w4-C16-B": ("C16", "Handle.Halt takes h.mu before waiting for the search goroutine", "a halt landing while the running iteration completes normally (search blocks on h.mu, Halt waits for it: deadlock)"),
+ "w4-C02-A": ("C02", "Move.Equals compares the promotion piece only when the receiver is a promotion move (asymmetric)", "an under-promotion arriving as text (Engine.Move / UCI 'position ... moves e7e8n'): parsed move matched against the generated ones, the queen promotion wins"),
+ "w4-C02-B": ("C02", "IsChecked tests a pawn-attacker table built without cropping the edge files", "a king on the a- or h-file and an enemy pawn on the opposite edge file two ranks away (phantom check: legal moves refused, false mates)"),
+ "w4-C03-A": ("C03", "move loop breaks as soon as alpha is a forced mate for the side to move", "a node with two mating moves of different length, the longer one first in move order, both inside the horizon (depth >= 4)"),
+ "w4-C03-B": ("C03", "the deferred restore of the root's draw result moved after the clear (captures Undecided)", "a root whose board carries a Draw from its history; Result() compared before/after the search"),
+ "w4-C03-C": ("C03", "PV updated whenever the new score equals alpha (ties replace the PV, fail-lows included)", "a node where a later move ties with alpha without attaining the returned value (third change kept by the agent as an extra)"),
+ "w4-C05-A": ("C05", "insufficient-material test only after captures: a plain under-promotion is no longer checked", "K+P v K, the pawn promotes by a straight push to a knight or bishop"),
+ "w4-C05-B": ("C05", "AdjudicateNoLegalMoves keeps an already terminal result", "a game that carries an unclaimed draw (repetition, clock, material) and then reaches mate or stalemate"),
+ "w4-C07-A": ("C07", "castling rook squares for the hash derived from the king's destination +-1 (right for O-O only)", "an O-O-O by either colour (rook hashed from the b-file)"),
+ "w4-C07-B": ("C07", "Board.Hash() folds a bucket of the half-move clock into the hash once it reaches 14", "14 plies without pawn move or capture, or a FEN whose half-move field is >= 14"),
+ "w4-C08-A": ("C08", "PopMove clears only mate/stalemate results; PushMove clears a left-over Draw", "a move that draws (third repetition, clock, material) taken back: the position returned to inherits the draw"),
+ "w4-C08-B": ("C08", "repetition table emptied on irreversible moves, not restored by take-back", "an irreversible move taken back, then a repetition against positions from before it"),
+ "w4-C14-A": ("C14", "full-move number derived from the ply count since the root", "a game set up from a FEN with Black to move, read when White is to move"),
+ "w4-C14-B": ("C14", "Engine caches its FEN; TakeBack does not invalidate the cache", "Engine.Position() after Move, TakeBack, Position()"),
+ "w4-C17-A": ("C17", "full-hash signature kept in a side array, stored after the CAS; Read trusts the signature alone", "two hashes of one slot, a reader or second writer between a writer's CAS and its signature store"),
+ "w4-C17-B": ("C17", "Engine.Reset clears and keeps a table of unchanged size; Clear() forgets the fill counter", "a search that stores something, Reset with the Hash size unchanged, another search (fill fraction counts the previous games' slots)"),
  "w4-C18-A": ("C18", "AlphaBeta.Search reports halted only if the score is invalid", "a halt arriving mid-tree in an iteration of depth >= 2 (partial result published as a finished depth)"),
  "w4-C18-B": ("C18", "Fork shares the head node + Engine.Move halts after pushing", "Analyze, then Engine.Move with no Halt in between while the search is inside the tree"),
 }
